@@ -52,6 +52,8 @@ struct Mon : public InterpreterMonitor {
 	bool cfgInCallbacks = true;
 	std::string cfg() {
 		std::string s;
+		// not stepped yet: there is no configuration (and, without an explicit engine, no micro-stepper to ask; getConfiguration() is not among the calls C10 names)
+		if (ip->getState() == USCXML_INSTANTIATED) return s;
 		try { for (auto e : ip->getConfiguration()) s += nm(e) + " "; } catch (...) { s = "?"; }
 		return s;
 	}
